@@ -60,6 +60,9 @@ type State struct {
 	hv   int               // heap version (for pure interface-method UFs)
 	pc   *pcNode
 	held map[string]bool // mutexes held (by printed expression)
+	// oldHeap: guarded heap arrays as they were when this path first acquired their lock; old() of
+	// guarded state refers to these (other lock holders may have changed it since function entry)
+	oldHeap map[string]string
 
 	written map[string]bool // heap arrays written (recording for loops / frames)
 	wrLocal map[types.Object]bool
@@ -87,6 +90,12 @@ func (s *State) clone() *State {
 	c.heap = make(map[string]string, len(s.heap))
 	for k, v := range s.heap {
 		c.heap[k] = v
+	}
+	if s.oldHeap != nil {
+		c.oldHeap = map[string]string{}
+		for k, v := range s.oldHeap {
+			c.oldHeap[k] = v
+		}
 	}
 	c.held = map[string]bool{}
 	for k, v := range s.held {
